@@ -101,6 +101,9 @@ def dom_string(rng, cls: str | None = None) -> str:
             s = word(rng, 1, 4) + rng.choice([" ", ""]) + '"' + rng.choice([word(rng, 1, 4), word(rng, 1, 3) + " " + word(rng, 1, 3), "a;b", "{x}"]) + '"' + rng.choice([" ", ""]) + word(rng, 1, 4)
         elif cls == "nonascii":
             s = "".join(rng.choice(NONASCII + LETTERS[:4] + " ") for _ in range(rng.randrange(1, 8)))
+            if rng.random() < 0.3:
+                # text that is not NFC-stable (decomposed accents, OHM SIGN, ANGSTROM SIGN): code points are data, too
+                s = rng.choice(["Ju\u0308rgen", "cafe\u0301", "k\u2126", "5 \u212b", "gro\u0308\u00dfe", "e\u0301 e\u0300"]) + rng.choice(["", " x", s])
         elif cls == "empty":
             s = ""
         elif cls == "typed":
@@ -314,4 +317,7 @@ def plain(t):
         return {k: plain(v) for k, v in t.items()}
     if isinstance(t, (list, tuple)):
         return [plain(v) for v in t]
+    if type(t).__module__ == "numpy":
+        # NumPy arrays come back as nested lists, NumPy scalars as the Python number of the same value (documented)
+        return plain(t.tolist()) if hasattr(t, "tolist") else t
     return copy.copy(t)
